@@ -59,6 +59,151 @@ async def agen(n):
         await asyncio.sleep(0)
 
 
+def longcall(a):
+    return plain(
+        a,
+        a,
+        a,
+        a,
+        a,
+        a,
+        a,
+        a,
+        a,
+        a,
+        a,
+        a,
+        a,
+        a,
+        a,
+        a,
+        a,
+        a,
+        a,
+        a,
+        a,
+        a,
+        a,
+        a,
+        a,
+        a,
+        a,
+        a,
+        a,
+        a,
+        a,
+        a,
+        a,
+        a,
+        a,
+        a,
+        a,
+        a,
+        a,
+        a,
+        a,
+        a,
+        a,
+        a,
+        a,
+        a,
+        a,
+        a,
+        a,
+        a,
+        a,
+        a,
+        a,
+        a,
+        a,
+        a,
+        a,
+        a,
+        a,
+        a,
+        a,
+        a,
+        a,
+        a,
+        a,
+        a,
+        a,
+        a,
+        a,
+        a,
+        a,
+        a,
+        a,
+        a,
+        a,
+        a,
+        a,
+        a,
+        a,
+        a,
+        a,
+        a,
+        a,
+        a,
+        a,
+        a,
+        a,
+        a,
+        a,
+        a,
+        a,
+        a,
+        a,
+        a,
+        a,
+        a,
+        a,
+        a,
+        a,
+        a,
+        a,
+        a,
+        a,
+        a,
+        a,
+        a,
+        a,
+        a,
+        a,
+        a,
+        a,
+        a,
+        a,
+        a,
+        a,
+        a,
+        a,
+        a,
+        a,
+        a,
+        a,
+        a,
+        a,
+        a,
+        a,
+        a,
+        a,
+        a,
+        a,
+        a,
+        a,
+        a,
+        a,
+        a,
+        a,
+        a,
+        a,
+        a,
+        a,
+        a,
+    )
+
+
 lam = lambda z, w=1: (z, w) if z else None  # noqa: E731
 
 SOURCE = "for i in range(3):\n    print(i if i else -i)\n"
